@@ -585,6 +585,7 @@ func init() {
 	vp("Ite", func(e *Exec, _ *frame, a []Value) Value {
 		return e.tb.Ite(a[0].(*Term), a[1].(*Term), a[2].(*Term))
 	})
+	vp("DepthIsFault", func(e *Exec, _ *frame, a []Value) Value { e.depthFault = int(e.concretize(a[0].(*Term))); return nil })
 	vp("SymbolicAddrs", func(e *Exec, _ *frame, a []Value) Value { e.symAddrs = e.concBool(a[0]); return nil })
 	vp("AssertNoGlobalWrites", func(e *Exec, _ *frame, a []Value) Value {
 		id := e.argStr(a[0])
